@@ -774,7 +774,7 @@ def two_calls_obligation(run, prog, pendings=1, oid="cache_two_calls"):
         not_reuse = z3.And(reg[1], z3.Not(reuse)) if f_name == "first-ok" else reg[1]
         cases.append(Case(f"{f_name}/second-called-ok", z3.And(f_guard, not_reuse, call_ok(j)), f_log + [c1], Pair(f_exp, ok_val(call_val(j)))))
         cases.append(Case(f"{f_name}/second-called-err", z3.And(f_guard, not_reuse, z3.Not(call_ok(j))), f_log + [c1], Pair(f_exp, err_userfn(n[1], call_err(j)))))
-    d = check_paths(run, prog, world, oid, body, cases, "function-cache", meta={"calls": 2, "pendings_per_await": pendings}, solver_timeout_ms=60000)
+    d = check_paths(run, prog, world, oid, body, cases, "function-cache", meta={"calls": 2, "pendings_per_await": pendings}, solver_timeout_ms=180000)
     d["format_template_injective_lemma_cvc5"] = lemmas
     return d
 
@@ -1136,7 +1136,7 @@ def rules_with_calls_obligation(run, prog, k=2, pendings=1, oid=None):
         return drive(ex, "{async fn body of ruleset::RuleSet::evaluate_value()}", co)
     cases = [Case("each-rule-as-on-its-own", z3.BoolVal(True), None, StandaloneExp(k))]
     d = check_paths(run, prog, world, oid, body, cases, "ruleset-loop", meta={"rules": k, "pendings_per_await": pendings, "functions": "deterministic"},
-                    solver_timeout_ms=60000)
+                    solver_timeout_ms=180000)
     d["format_template_injective_lemma_cvc5"] = lemmas
     return d
 
